@@ -74,12 +74,29 @@ def session_task(W, payload, r, prog, out):
     keys = sorted(lp["params"])
     hist = []; lops = []
     solver0 = r.choice(["euler", "rk4"])
-    for step in range(r.randint(2, 6)):
-        kind = r.choice(["run", "run", "run_omit", "defaults", "rebuild"])
+    other_solver = "rk4" if solver0 == "euler" else "euler"
+    n_runners = 0
+    for step in range(r.randint(2, 7)):
+        kind = r.choice(["run", "run", "run_omit", "defaults", "rebuild", "get_runner", "get_runner", "runner_run"])
         vals = {k: q(Fr(v) * r.choice([Fr(1), Fr(1, 2), Fr(3, 2)])) for k, v in params.items()}
         if kind == "defaults":
             sub = {k: vals[k] for k in keys if r.random() < 0.6}
             hist.append(("defaults", sub)); lops.append({"k": "defaults", "d": [[k, v] for k, v in sub.items()]})
+            continue
+        if kind == "get_runner":
+            # an explicit runner (other solver, some parameters frozen at other values) must not disturb later model.run calls
+            dyn = None if r.random() < 0.3 else [k for k in keys if r.random() < 0.5]
+            sv = r.choice([solver0, other_solver, other_solver])
+            hist.append(("get_runner", dict(vals), dyn, sv))
+            lop = {"k": "get_runner", "base": [[k, v] for k, v in vals.items()], "solver": sv}
+            if dyn is not None: lop["dyn"] = list(dyn)
+            lops.append(lop); n_runners += 1
+            continue
+        if kind == "runner_run":
+            if n_runners == 0:
+                continue
+            hdl = r.randrange(n_runners)
+            hist.append(("runner_run", hdl, dict(vals))); lops.append({"k": "runner_run", "h": hdl, "p": [[k, v] for k, v in vals.items()]})
             continue
         p = dict(vals)
         if kind == "run_omit" and keys:
@@ -91,11 +108,35 @@ def session_task(W, payload, r, prog, out):
         out["diffs"].append({"stage": "S9", "what": "session model error", "model": pred, "prescribed": False}); return out
     I = S.I
     h = prog_hash(ops)
+    runners = []
     for (hop, lop, outc) in zip(hist, lops, pred["outcomes"]):
         if hop[0] == "defaults":
             I.model.set_default_parameters({k: float(Fr(v)) for k, v in hop[1].items()})
             continue
-        rr = I.apply({"op": "run", "params": [[k, v] for k, v in hop[1].items()], "solver": solver0, "rebuild": hop[2]})
+        if hop[0] == "get_runner":
+            try:
+                runners.append(I.model.get_runner({k: float(Fr(v)) for k, v in hop[1].items()}, dyn_params=(None if hop[2] is None else list(hop[2])),
+                                                  solver=hop[3], jit=False))
+                built = True
+            except BaseException:
+                runners.append(None); built = False
+            out["evals"] += 1
+            if built != ("built" in outc):
+                out["diffs"].append({"stage": "S9", "what": "session: get_runner raise / no-raise", "impl": built, "model": outc, "history": lops, "prescribed": False,
+                                     "task": {"module": "c11", "fn": "task", "payload": payload}, "program": ops})
+                break
+            continue
+        if hop[0] == "runner_run":
+            rn = runners[hop[1]] if hop[1] < len(runners) else None
+            if rn is None:
+                break
+            try:
+                rn.run({k: float(Fr(v)) for k, v in hop[2].items()})
+                rr = {"ok": True, "outputs": np.asarray(I.model.outputs).tolist(), "derived": [[k, np.asarray(v).tolist()] for k, v in I.model.derived_outputs.items()]}
+            except BaseException as e:
+                rr = {"ok": False, "err": type(e).__name__}
+        else:
+            rr = I.apply({"op": "run", "params": [[k, v] for k, v in hop[1].items()], "solver": solver0, "rebuild": hop[2]})
         out["evals"] += 1
         if ("ok" in outc) != rr["ok"]:
             out["diffs"].append({"stage": "S9", "what": "session: raise / no-raise", "impl": rr.get("err", "ok"), "model": outc, "history": lops, "prescribed": False,
